@@ -364,3 +364,289 @@ func rqParseShape(w *World) {
 	})
 	w.floor("AST-carrying returns of parser.Parse", n, 1)
 }
+
+// ---- RQ4: nil-field discipline of the lenient AST (C12) -------------------------------------------
+//
+// The grammar's error-tolerant actions build AST nodes with missing parts: they pass a literal nil
+// for some constructor parameters. Every struct field initialised from such a parameter is
+// "nilable". The AST→descriptor conversion (parser/result.go, parser/validate.go) runs on whatever
+// Parse returned, so each dereference of a nilable field there (method call on it, field of it)
+// must be dominated by a nil test of that field; otherwise some syntactically broken input makes
+// ResultFromAST panic.
+func rq4NilableFields(w *World) {
+	w.rule("RQ4")
+	pp := w.pkg("parser")
+	ap := w.pkg("ast")
+	if pp == nil || ap == nil {
+		return
+	}
+	// 1. constructor parameter -> fields
+	type ctor struct {
+		fields map[int][]*types.Var
+	}
+	ctors := map[*types.Func]*ctor{}
+	for _, b := range allFuncBodies(ap) {
+		if b.Lit != nil || b.Decl.Recv != nil || !strings.HasPrefix(b.Obj.Name(), "New") {
+			continue
+		}
+		params := map[types.Object]int{}
+		i := 0
+		for _, fl := range b.Decl.Type.Params.List {
+			for _, nm := range fl.Names {
+				params[ap.TypesInfo.Defs[nm]] = i
+				i++
+			}
+		}
+		c := &ctor{fields: map[int][]*types.Var{}}
+		ast.Inspect(b.Body, func(x ast.Node) bool {
+			cl, ok := x.(*ast.CompositeLit)
+			if !ok {
+				return true
+			}
+			tv, ok := ap.TypesInfo.Types[cl]
+			if !ok {
+				return true
+			}
+			st, ok := tv.Type.Underlying().(*types.Struct)
+			if !ok {
+				return true
+			}
+			for _, el := range cl.Elts {
+				kv, ok := el.(*ast.KeyValueExpr)
+				if !ok {
+					continue
+				}
+				id, ok := ast.Unparen(kv.Value).(*ast.Ident)
+				if !ok {
+					continue
+				}
+				pi, isParam := params[ap.TypesInfo.Uses[id]]
+				if !isParam {
+					continue
+				}
+				for j := 0; j < st.NumFields(); j++ {
+					if st.Field(j).Name() == render(kv.Key) {
+						c.fields[pi] = append(c.fields[pi], st.Field(j))
+					}
+				}
+			}
+			return true
+		})
+		if len(c.fields) > 0 {
+			ctors[b.Obj] = c
+		}
+	}
+	// 2. nil arguments in the compiled grammar actions
+	nilable := map[*types.Var]token.Pos{}
+	nCalls := 0
+	for _, f := range pp.Syntax {
+		if !strings.HasSuffix(w.Fset.Position(f.Pos()).Filename, "proto.y.go") && !strings.HasSuffix(w.Fset.Position(f.Pos()).Filename, "/ast.go") {
+			continue
+		}
+		ast.Inspect(f, func(x ast.Node) bool {
+			c, ok := x.(*ast.CallExpr)
+			if !ok {
+				return true
+			}
+			fn := callee(pp.TypesInfo, c)
+			ct := ctors[fn]
+			if ct == nil {
+				return true
+			}
+			nCalls++
+			for i, a := range c.Args {
+				if isNilIdent(pp.TypesInfo, a) {
+					for _, fld := range ct.fields[i] {
+						if _, seen := nilable[fld]; !seen {
+							nilable[fld] = a.Pos()
+						}
+					}
+				}
+			}
+			return true
+		})
+	}
+	w.floor("AST constructor calls in the grammar actions", nCalls, 100)
+	w.floor("AST fields the lenient grammar may leave nil", len(nilable), 10)
+
+	// 3. dereferences in the AST→descriptor conversion
+	info := pp.TypesInfo
+	nDeref, nBad := 0, 0
+	for _, b := range allFuncBodies(pp) {
+		fname := w.Fset.Position(b.Decl.Pos()).Filename
+		if b.Lit != nil || !(strings.HasSuffix(fname, "/result.go") || strings.HasSuffix(fname, "/validate.go")) {
+			continue
+		}
+		w.FuncsSeen[b.Label] = true
+		g := buildCFG(info, b.Body)
+		d := &Dataflow{G: g, Must: true, Init: Facts{}}
+		d.Transfer = func(n ast.Node, in Facts) Facts {
+			out := in
+			if as, ok := n.(*ast.AssignStmt); ok {
+				for _, l := range as.Lhs {
+					r := render(l)
+					for k := range out {
+						if strings.HasPrefix(k, "nonnil:"+r+".") || k == "nonnil:"+r {
+							out = out.without(k)
+						}
+					}
+				}
+			}
+			return out
+		}
+		d.Branch = func(leaf ast.Expr, truth bool, s Facts) Facts {
+			if be, ok := leaf.(*ast.BinaryExpr); ok && (be.Op == token.NEQ || be.Op == token.EQL) && isNilIdent(info, be.Y) {
+				if (be.Op == token.NEQ) == truth {
+					return s.with("nonnil:" + render(be.X))
+				}
+			}
+			return s
+		}
+		d.Run()
+		d.Walk(func(_ *cfg.Block, n ast.Node, before Facts) {
+			parents := parentMap(n)
+			inspectPost(n, func(x ast.Node) {
+				sel, ok := x.(*ast.SelectorExpr)
+				if !ok {
+					return
+				}
+				fld := selField(info, sel)
+				if fld == nil {
+					return
+				}
+				if _, isNilable := nilable[fld]; !isNilable {
+					return
+				}
+				// is the field value dereferenced? (base of another selector that is a method call or field)
+				par, ok := parents[sel].(*ast.SelectorExpr)
+				if !ok || par.X != ast.Expr(sel) {
+					return
+				}
+				// nil-safe accessors of package ast (methods that test the receiver) are fine: only pointer receivers can be; be conservative and require a guard
+				nDeref++
+				key := fmt.Sprintf("nilable-deref|%s|%s.%s", b.Label, render(sel), par.Sel.Name)
+				if before["nonnil:"+render(sel)] || shortCircuitGuard(info, parents, sel, render(sel)) {
+					w.ok(key, sel.Pos(), "dominated by a nil test of "+render(sel))
+					return
+				}
+				// a method with a pointer receiver that itself handles nil is acceptable
+				if s := info.Selections[par]; s != nil && s.Kind() == types.MethodVal {
+					if m, ok := s.Obj().(*types.Func); ok && methodHandlesNilReceiver(w, m) {
+						w.ok(key, sel.Pos(), "method "+m.Name()+" tests its receiver for nil")
+						return
+					}
+				}
+				nBad++
+				w.violation(key, sel.Pos(), fmt.Sprintf("%s can be nil for syntactically broken input (the grammar passes nil for it at %s) but is dereferenced here without a dominating nil test: converting the AST of such a file to a descriptor panics", render(sel), w.pos(nilable[fld])))
+			})
+		})
+	}
+	w.floor("dereferences of nilable AST fields in the conversion", nDeref, 5)
+	_ = nBad
+}
+
+// methodHandlesNilReceiver: the method's first statement tests the receiver against nil.
+func methodHandlesNilReceiver(w *World, m *types.Func) bool {
+	fd := w.decls[m]
+	if fd == nil || fd.Recv == nil || len(fd.Recv.List) != 1 || len(fd.Recv.List[0].Names) != 1 || fd.Body == nil || len(fd.Body.List) == 0 {
+		return false
+	}
+	rn := fd.Recv.List[0].Names[0].Name
+	if ifs, ok := fd.Body.List[0].(*ast.IfStmt); ok {
+		if be, ok := ifs.Cond.(*ast.BinaryExpr); ok && render(be.X) == rn && render(be.Y) == "nil" {
+			return true
+		}
+	}
+	return false
+}
+
+// shortCircuitGuard: is e evaluated only if `key != nil` held, by && / || short-circuiting inside
+// the same expression?
+func shortCircuitGuard(info *types.Info, parents map[ast.Node]ast.Node, e ast.Node, key string) bool {
+	var hasLeaf func(x ast.Expr, op token.Token, conj token.Token) bool
+	hasLeaf = func(x ast.Expr, op token.Token, conj token.Token) bool {
+		x = ast.Unparen(x)
+		if be, ok := x.(*ast.BinaryExpr); ok {
+			if be.Op == conj {
+				return hasLeaf(be.X, op, conj) || hasLeaf(be.Y, op, conj)
+			}
+			if be.Op == op && isNilIdent(info, be.Y) && render(be.X) == key {
+				return true
+			}
+		}
+		return false
+	}
+	child := e
+	for p := parents[e]; p != nil; p = parents[p] {
+		if be, ok := p.(*ast.BinaryExpr); ok && ast.Node(be.Y) == child {
+			if be.Op == token.LAND && hasLeaf(be.X, token.NEQ, token.LAND) {
+				return true
+			}
+			if be.Op == token.LOR && hasLeaf(be.X, token.EQL, token.LOR) {
+				return true
+			}
+		}
+		child = p
+	}
+	return false
+}
+
+// ---- RQ3: byte distances come from the reader, not from re-encoded text (C12) -----------------------
+//
+// Positions are computed as reader offset ± distance. A distance obtained as len(s) of a string
+// that was rebuilt from runes (string(r), string([]rune{…})) is the length of the *re-encoding*:
+// an invalid UTF-8 byte is consumed as 1 byte but re-encodes as the 3-byte U+FFFD, so the
+// computed offset can precede the start of the file (index out of range) or name a wrong column.
+// Rule: the offset argument of (*protoLex).errWithCurrentPos and the argument of
+// (*FileInfo).SourcePos contain no len(<non-constant string>).
+func rq3ByteDistances(w *World) {
+	w.rule("RQ3")
+	p := w.pkg("parser")
+	ewp := w.fn("parser", "(*protoLex).errWithCurrentPos")
+	if p == nil || ewp == nil {
+		return
+	}
+	info := p.TypesInfo
+	n := 0
+	for _, b := range allFuncBodies(p) {
+		if b.Lit != nil || !strings.HasSuffix(w.Fset.Position(b.Decl.Pos()).Filename, "lexer.go") {
+			continue
+		}
+		ast.Inspect(b.Body, func(x ast.Node) bool {
+			c, ok := x.(*ast.CallExpr)
+			if !ok {
+				return true
+			}
+			f := callee(info, c)
+			var arg ast.Expr
+			switch {
+			case f == ewp.Obj && len(c.Args) == 2:
+				arg = c.Args[1]
+			case f != nil && f.Name() == "SourcePos" && len(c.Args) == 1:
+				arg = c.Args[0]
+			default:
+				return true
+			}
+			n++
+			key := "distance|" + b.Label + "|" + types.ExprString(arg)
+			bad := ""
+			ast.Inspect(arg, func(y ast.Node) bool {
+				if lc, ok := y.(*ast.CallExpr); ok && isBuiltinCall(info, lc, "len") && len(lc.Args) == 1 {
+					if tv, ok := info.Types[lc.Args[0]]; ok && tv.Value == nil {
+						if bt, ok := tv.Type.Underlying().(*types.Basic); ok && bt.Info()&types.IsString != 0 {
+							bad = types.ExprString(lc)
+						}
+					}
+				}
+				return true
+			})
+			if bad == "" {
+				w.ok(key, c.Pos(), "the position is computed from reader offsets / constants only")
+			} else {
+				w.violation(key, c.Pos(), "the position is computed with "+bad+", the length of text re-encoded from runes: for an invalid UTF-8 byte (1 byte consumed, 3 bytes when re-encoded as U+FFFD) the offset is wrong and can become negative, making FileInfo.SourcePos index out of range — Parse panics instead of reporting the error")
+			}
+			return true
+		})
+	}
+	w.floor("position computations in parser/lexer.go", n, 2)
+}
